@@ -371,6 +371,12 @@ def check(ctx, rep):
             v = p.value
             cur = isinstance(v, tuple) and v[0] == "elem"
             rep.ob("R-NEXT", "selection leaves the walk only with the job at hand", cur, "returns %s from inside the walk over the job list: the remaining jobs are not considered" % fmt(v), where_of(sel), trace_of(p))
+    # a walk that has seen a job with no attempt in flight does not come back empty-handed: returning None sends the
+    # worker into an untimed wait although a job is waiting for its due time
+    for p in ps:
+        if p.status == "return" and (p.value == ("const", None) or p.assume.get(p.value) is False):
+            seen_waiting = [t for t, tv in p.branch_atoms() if isinstance(t, tuple) and t[0] == "attr" and t[2] == inflight_field and isinstance(t[1], tuple) and t[1][0] == "elem" and tv is False]
+            rep.ob("R-NEXT", "selection returns a job whenever one is waiting", not seen_waiting, "the walk found %s with no attempt in flight but the selection returns nothing: the worker then waits without a timeout and the retry is not started when its delay has passed" % (fmt(seen_waiting[0][1]) if seen_waiting else ""), where_of(sel), trace_of(p))
     rep.require(nret >= 6, "job selection: returning paths not found")
 
     # ---------------------------------------------------------------- who resolves retry futures
